@@ -201,6 +201,11 @@ func (c *Cluster) Transfer() (from, to string, err error) {
 
 // Quiesce waits until every live node has applied what the leader applied.
 func (c *Cluster) Quiesce(d time.Duration) (map[string]*xp.State, error) {
+	if d < 2*time.Minute {
+		// two minutes at least: a replica that is merely slow on a busy machine has been seen to
+		// need more than one (three orders above the normal tens of milliseconds either way)
+		d = 2 * time.Minute
+	}
 	deadline := time.Now().Add(Stretch(d))
 	want := uint64(c.Acked.Len())
 	for {
